@@ -40,6 +40,14 @@ ThAllowed(st, ev) ==
            [] OTHER -> TRUE
     [] OTHER -> FALSE
 
+\* The library's own locks (harness/lock_driver.cpp: no scheduler, the default lock macros): at
+\* every reported access to the live list the list lock is held in the mode the access needs -
+\* a conflicting try-lock taken from another thread failed - and it is free between operations.
+ProbeAllowed(ev) ==
+  CASE ev.e = "lockprobe" -> ev.held
+    [] ev.e = "lockfree" -> ev.free
+    [] OTHER -> FALSE
+
 ThApply(st, ev) ==
   CASE ev.k = "acq_unique" -> [st EXCEPT !.w = ev.t]
     [] ev.k = "rel_unique" -> [st EXCEPT !.w = ""]
